@@ -173,7 +173,9 @@ def worker(case, led):
             cfg = EvolveConfig(getattr(EvolveMethod, method), guess_dt=-1j * dbeta)
             A0.compress_config = CompressConfig(CompressCriteria.fixed, max_bonddim=64)
             try:
-                tp = ThermalProp(A0, evolve_config=cfg)
+                # the bond expander behind auto_expand supports (assert) the one-exciton purified state only; the two-site scheme grows bonds itself
+                kw = {"auto_expand": False} if (sector == 0 and method == "tdvp_ps2") else {}
+                tp = ThermalProp(A0, evolve_config=cfg, **kw)
                 tp.evolve(evolve_dt=-1j * dbeta, nsteps=nsteps)
             except Exception as e:
                 led.check(False, "post:ThermalProp.evolve:total", "ThermalProp.evolve", f"raised {type(e).__name__}: {e}", key, fields, rep)
